@@ -79,6 +79,9 @@ def run(oc, tier, seed, model_available, escalate):
         eu.write_tree(root, tree)
         ecc = os.path.join(d, "ecc.txt")
         if eu.generate(P, root, ecc) != "0":
+            # generation of a well-formed parameter set on a latin-1 tree never fails on the unchanged code: a failure is a violation
+            oc.violations.append({"input": {"params": P.describe(), "tree": {k_: v_.hex()[:200] for k_, v_ in (tree if isinstance(tree, dict) else {}).items()}},
+                                  "what": "generation of the ecc file failed on a well-formed parameter set"})
             oc.count("excluded: generation failed")
             continue
         data = bytearray(open(ecc, "rb").read())
